@@ -134,7 +134,8 @@ def model_options(f, mean, std, sr, lw, nw, fn_std):
 
 
 def matches(real, want):
-    return all(w is None or bool(r) == w for r, w in zip(real, want))
+    """every verdict is exactly 0 or 1 (the documented encoding; callers add them up) and equals the model's"""
+    return len(real) == len(want) and all(r in (0, 1) and (w is None or bool(r) == w) for r, w in zip(real, want))
 
 
 def fam_verdicts(ctx, rng, coarse=False):
